@@ -1,0 +1,23 @@
+//go:build !verif
+
+package kv
+
+import "math/rand"
+
+// verifShuffle and verifKeys are seams for the deterministic simulator
+// (build tag "verif"). Without the tag they behave as the code they
+// replace: an unseeded shuffle, and Go's randomised map order.
+
+func verifShuffle(roots []string) {
+	rand.Shuffle(len(roots), func(i, j int) {
+		roots[i], roots[j] = roots[j], roots[i]
+	})
+}
+
+func verifKeys[V any](m map[string]V) []string {
+	keys := make([]string, 0, len(m))
+	for k := range m {
+		keys = append(keys, k)
+	}
+	return keys
+}
